@@ -55,8 +55,45 @@ def wrong_value(name):
     return WRONG[name]
 
 
+HEADER_MULTI = [("A", "a", "b"), ("J", [1, 2], [3]), ("J", {"a": 1}, [1.5]), ("f", 1.5, 2.5), ("f", 3, 4), ("Z", "x y", "z"),
+                ("i", 5, -7), ("B", [1, 2], [300, 2]), ("B", [1.5], [2.0, 3.0])]
+
+
+def run_header_multi(case, ctx):
+    """a header tag defined several times (header.add with a declared datatype): each value is
+    written under the declared datatype, by the header line itself and by the Gfa."""
+    dt, v1, v2 = HEADER_MULTI[case["cell"]]
+    tag = case["tag"]
+    g = gfapy.Gfa(vlevel=case["vlevel"])
+    for v in (v1, v2):
+        r = call(ctx, "header.add(tag, value, datatype)", g.header.add, tag, v, dt)
+        if not r.ok:
+            ctx.violation("valid-assignment-refused/header-multi/%s/%s" % (dt, r.cls()), "header.add(%r, %r, %r): %s"
+                          % (tag, v, dt, str(r.exc)[:200]))
+            return
+    ctx.count("multi_valued_header_tags")
+    ctx.nontriv(["header-multi", dt, case["vlevel"]])
+    fs = call(ctx, "header.field_to_s(tag, tag=True)", g.header.field_to_s, tag, True)
+    hs = call(ctx, "str(header)", str, g.header)
+    gs = call(ctx, "str(gfa)", str, g)
+    for what, out in (("field_to_s", fs), ("str(header)", hs), ("str(gfa)", gs)):
+        if not out.ok:
+            ctx.violation("multi-valued-header-not-writable/%s/%s" % (dt, out.cls()), "%s of %s:%s %r, %r" % (what, tag, dt, v1, v2))
+            return
+        parts = [x for l in out.value.split("\n") for x in l.split("\t") if x.startswith(tag + ":")]
+        if len(parts) != 2 or any(not S.TAGRE.fullmatch(x) or S.TAGRE.fullmatch(x).group(2) != dt or
+                                  S.tag_value_verdict(dt, S.TAGRE.fullmatch(x).group(3))[0] == S.INVALID for x in parts):
+            ctx.violation("multi-valued-header-written-wrong/%s/%s" % (what, dt),
+                          "%s:%s with the values %r, %r is written %r by %s" % (tag, dt, v1, v2, out.value, what))
+            return
+
+
 def cases(rng, tier, shard, nshards):
     while True:
+        if rng.random() < 0.02:
+            yield {"kind": "header-multi", "cell": rng.randrange(len(HEADER_MULTI)), "vlevel": rng.choice([0, 1, 2, 3]),
+                   "tag": V.tagname(rng), "good": None}
+            continue
         if rng.random() < 0.12:
             # a Python value of any class offered to each declared datatype
             yield {"kind": "anyclass", "value": rng.choice(sorted(WRONG)), "dt": rng.choice("AifZJHB"), "good": None,
@@ -271,6 +308,8 @@ def _after_connected(case, ctx, line, g, kind, v, tag, want_dt, cell):
 def run(case, ctx):
     if case["kind"] == "anyclass":
         return run_anyclass(case, ctx)
+    if case["kind"] == "header-multi":
+        return run_header_multi(case, ctx)
     kind, good, vlevel, tag = case["kind"], case["good"], case["vlevel"], case["tag"]
     text, _ = CARRIERS[case["carrier"]]
     g = None
